@@ -652,7 +652,7 @@ func TestBulk64(t *testing.T) {
 	if pbt.ReplayPath != "" {
 		t.Skip("replay mode")
 	}
-	n := pbt.N(2000000, 8000000)
+	n := pbt.N(2000000, 4000000)
 	workers := runtime.NumCPU()
 	per := n / workers
 	if per < 1 {
